@@ -37,7 +37,11 @@ def gen(rnd):
         x += [dy(rnd, -4, 4)] + ([dy(rnd, -4, 4)] if three else []) + [dy(rnd, 1.5, 4), dy(rnd, -2, 2)]
     if infer:
         x.append(pos(rnd, 1.0, 4.0))
-    return {"ne": ne, "ns": ns, "three": three, "rx": rx, "ry": ry, "rz": rz, "infer": infer, "v": v, "obs": obs, "sd_scalar": sd_scalar, "s0": s0,
+    coincident = rnd.random() < 0.15
+    if coincident:
+        # a source exactly at a station (a shot fired at a receiver): distance 0 for that datum
+        x[0:per - 1] = [rx[0]] + ([ry[0]] if three else []) + [rz[0]]
+    return {"coincident": coincident, "ne": ne, "ns": ns, "three": three, "rx": rx, "ry": ry, "rz": rz, "infer": infer, "v": v, "obs": obs, "sd_scalar": sd_scalar, "s0": s0,
             "sds": sds, "x": x, "pattern": pattern}
 
 
@@ -69,7 +73,7 @@ def run(tier, seed):
     rnd = random.Random(seed * 7919 + 17)
     n = 90 if tier == "quick" else 1200
     goals, owners, metas, violations, samples, seen = [], [], [], [], [], set()
-    dist = {"2d": 0, "3d": 0, "infer_velocity": 0, "with_missing": 0, "scalar_sigma": 0, "truth_cases": 0, "y0_cases": 0}
+    dist = {"2d": 0, "3d": 0, "infer_velocity": 0, "with_missing": 0, "scalar_sigma": 0, "truth_cases": 0, "y0_cases": 0, "source_at_station": 0}
     for i in range(n):
         c = gen(rnd)
         obj = build(c, D)
@@ -85,28 +89,30 @@ def run(tier, seed):
         dist["infer_velocity"] += int(c["infer"])
         dist["with_missing"] += int(c["pattern"] != "none")
         dist["scalar_sigma"] += int(c["sd_scalar"])
+        dist["source_at_station"] += int(c["coincident"])
         if numpy.asarray(obj.gradient(xa.copy())).shape != (len(x), 1):
             violations.append(Violation("gradient-shape", f"{desc}: gradient shape {numpy.asarray(obj.gradient(xa.copy())).shape}", {"case": c}))
         if math.isfinite(mis) and not all(math.isfinite(g) for g in grad):
             violations.append(Violation(f"gradient-not-finite-{'3D' if c['three'] else '2D'}", f"{desc}: misfit {mis} is finite but gradient is {grad}", {"case": c}))
             continue
-        ev, vv, stations, obs_t, sds_t = terms(c, x)
-        b = "true" if c["three"] else "false"
-        gs = [goal(f"src_misfit {ev} {vv} {stations} {obs_t} {sds_t}", mis)]
-        for k in range(len(x) - int(c["infer"])):
-            gs.append(goal(f"nth {k} (fst (src_gradient {b} {ev} {vv} {stations} {obs_t} {sds_t})) 0", grad[k]))
-        if c["infer"]:
-            gs.append(goal(f"snd (src_gradient {b} {ev} {vv} {stations} {obs_t} {sds_t})", grad[-1]))
-        # predicted arrival times, event by event and station by station
-        per = 4 if c["three"] else 3
-        e0 = rnd.randrange(c["ne"])
-        s0 = rnd.randrange(c["ns"])
-        bb = x[e0 * per:(e0 + 1) * per]
-        et = f"({q(bb[0])}, {q(bb[1])}, {q(bb[2])})" if c["three"] else f"({q(bb[0])}, 0, {q(bb[1])})"
-        gs.append(goal(f"tt {et} {q(bb[-1])} {vv} ({q(c['rx'][s0])}, {q(c['ry'][s0])}, {q(c['rz'][s0])})", float(fwd[e0, s0])))
-        for g in gs:
-            goals.append(g)
-            owners.append(len(metas))
+        if not c["coincident"]:     # the model divides by the distance; at distance 0 only the statement itself is checked
+            ev, vv, stations, obs_t, sds_t = terms(c, x)
+            b = "true" if c["three"] else "false"
+            gs = [goal(f"src_misfit {ev} {vv} {stations} {obs_t} {sds_t}", mis)]
+            for k in range(len(x) - int(c["infer"])):
+                gs.append(goal(f"nth {k} (fst (src_gradient {b} {ev} {vv} {stations} {obs_t} {sds_t})) 0", grad[k]))
+            if c["infer"]:
+                gs.append(goal(f"snd (src_gradient {b} {ev} {vv} {stations} {obs_t} {sds_t})", grad[-1]))
+            # predicted arrival times, event by event and station by station
+            per = 4 if c["three"] else 3
+            e0 = rnd.randrange(c["ne"])
+            s0 = rnd.randrange(c["ns"])
+            bb = x[e0 * per:(e0 + 1) * per]
+            et = f"({q(bb[0])}, {q(bb[1])}, {q(bb[2])})" if c["three"] else f"({q(bb[0])}, 0, {q(bb[1])})"
+            gs.append(goal(f"tt {et} {q(bb[-1])} {vv} ({q(c['rx'][s0])}, {q(c['ry'][s0])}, {q(c['rz'][s0])})", float(fwd[e0, s0])))
+            for g in gs:
+                goals.append(g)
+                owners.append(len(metas))
         metas.append({"desc": desc, "point": x, "misfit": mis, "gradient": grad})
         if c["pattern"] != "none" or c["infer"]:
             seen.add(common.case_hash([desc, x]))
@@ -131,7 +137,7 @@ def run(tier, seed):
             if not (abs(m3 - mis) <= 1e-9 * max(1, abs(mis)) and numpy.allclose(g3r, grad, rtol=1e-9, atol=1e-12) and numpy.allclose(gy, 0.0, atol=1e-12)):
                 violations.append(Violation("3d-y0-differs-from-2d", f"{desc}: the 3D problem with all y = 0 gives misfit {m3} / gradient {g3}, the 2D problem {mis} / {grad}", {"case": c}))
         # noise-free data: zero misfit and gradient at the truth
-        if i % 3 == 0:
+        if i % 3 == 0 or c["coincident"]:
             dist["truth_cases"] += 1
             clean = numpy.array(fwd, dtype=float)
             mask = numpy.isnan(numpy.array(c["obs"], dtype=float))
@@ -153,7 +159,7 @@ def run(tier, seed):
         violations.append(Violation("coq-error", "interval shard failed: " + log[-300:], {"log": log, "no_failing_input_found": True}))
     return {
         "evaluations": len(metas) + dist["truth_cases"] + dist["y0_cases"], "distinct_nontrivial": len(seen),
-        "rule": "random geometries (1-4 stations, 1-3 events, dyadic coordinates, sources at depth >= 1.5 below stations at depth <= 1), 2D and 3D, scalar or per-datum "
+        "rule": "random geometries (1-4 stations, 1-3 events, dyadic coordinates, sources at depth >= 1.5 below stations at depth <= 1, 15% with one source exactly at a station), 2D and 3D, scalar or per-datum "
                 "sigma, missing-pick patterns none / scattered / whole event / all but one, fixed or inferred velocity; non-trivial = missing picks or inferred velocity",
         "samples": samples, "violations": violations,
         "traces_validated_against_impl": len(metas) - len({owners[j] for j in failing}),
